@@ -286,6 +286,14 @@ func makePlan(r *rand.Rand, idx int, tier string, t0 int64) *plan {
 	}
 	p.Cycles = cycles
 	add := func(s planStep) { p.Steps = append(p.Steps, s) }
+	// the last busy cycle after the first cycle is driven step by step and starts its data flushes between WriteRows and
+	// CommitSequence of an entry for old series; of the other cycles about half run through the real doFlush
+	raceCycle := -1
+	for c, kind := range cycles {
+		if kind == "busy" && c >= 1 {
+			raceCycle = c
+		}
+	}
 	// setup arrivals
 	g.cycle = 0
 	add(planStep{Kind: "arrive", Cycle: -1, Actions: []action{g.appendAction(3), g.appendAction(2), g.replicate(true)}})
@@ -301,6 +309,42 @@ func makePlan(r *rand.Rand, idx int, tier string, t0 int64) *plan {
 			add(planStep{Kind: "arrive", Cycle: c, CycKind: kind, Actions: acts})
 		}
 		g.inFlush = true
+		if c != raceCycle && r.Intn(2) == 0 {
+			// the whole cycle through the real dataFlushChecker.doFlush (tsdb.VerifDoFlush): rows arrive at file-system
+			// operations of its metadata / index / data part
+			cyc := planStep{Kind: "cycle", Cycle: c, CycKind: kind}
+			if busy {
+				if r.Intn(2) == 0 {
+					inj := g.genericInjection(12)
+					inj.Contains = "/meta/"
+					cyc.Inject = append(cyc.Inject, inj)
+				}
+				if g.lastUsed != nil && r.Intn(2) == 0 {
+					k := "tagkey"
+					if r.Intn(2) == 0 {
+						k = "field"
+					}
+					row := g.row(k, g.fam(), g.lastUsed)
+					cyc.Inject = append(cyc.Inject, injection{Prefix: "close ", Contains: "/kv/schema/", Nth: 0, Targeted: "schema-" + k,
+						Actions: []action{{Kind: "append", Rows: []rowRec{row}, Writers: 1}, {Kind: "replicate", Steps: -1}}})
+				}
+				if r.Intn(2) == 0 {
+					inj := g.genericInjection(14)
+					inj.Contains = "/index/"
+					cyc.Inject = append(cyc.Inject, inj)
+				}
+				if r.Intn(2) == 0 {
+					inj := g.genericInjection(6)
+					inj.Contains = "/segment/"
+					cyc.Inject = append(cyc.Inject, inj)
+				}
+			}
+			add(cyc)
+			if r.Intn(2) == 0 {
+				add(planStep{Kind: "sync", Cycle: c, CycKind: kind})
+			}
+			continue
+		}
 		meta := planStep{Kind: "meta", Cycle: c, CycKind: kind}
 		if busy {
 			if r.Intn(3) > 0 {
@@ -334,11 +378,11 @@ func makePlan(r *rand.Rand, idx int, tier string, t0 int64) *plan {
 			for _, fam := range families {
 				d := planStep{Kind: "data", Cycle: c, CycKind: kind, Shard: s, Family: fam}
 				if busy {
-					switch r.Intn(3) {
-					case 0:
-						d.Inject = append(d.Inject, g.genericInjection(8))
-					case 1:
+					switch {
+					case c == raceCycle:
 						d.Racing = g.racingRows(s, fam)
+					case r.Intn(2) == 0:
+						d.Inject = append(d.Inject, g.genericInjection(8))
 					}
 				}
 				add(d)
